@@ -1,4 +1,1152 @@
-//! placeholder, filled in by the wire satellite
-pub fn run(_args: &[String]) -> Result<(), String> {
-    Err("wire satellite not built yet".into())
+//! C14: deserializing or using untrusted bytes never crashes, hangs or
+//! over-allocates.
+//!
+//! The abstract cases and the wire grammar come from spec/Wire.tla (mode gen).
+//! This driver
+//!  * builds valid objects of the six serialized types (small and large),
+//!  * cuts them into fields with a LEB128-aware walker that INTERPRETS the
+//!    grammar of the module (so a wrong grammar is detected: exit code 2),
+//!  * expands every abstract case into concrete mutants (every truncation,
+//!    every byte flip, every occurrence of a count/length field x boundary
+//!    value, raw and consistent, random strings),
+//!  * executes them in isolated worker processes (address-space limit, panics
+//!    caught, watchdog on progress) and uses every parsed mutant,
+//!  * writes one aggregated record per (abstract case, outcome class).
+
+use std::alloc::{GlobalAlloc, Layout, System};
+use std::collections::{BTreeMap, HashMap, HashSet};
+use std::io::{BufRead, BufReader, BufWriter, Write};
+use std::panic::{catch_unwind, AssertUnwindSafe};
+use std::process::{Child, ChildStdin, Command, Stdio};
+use std::sync::atomic::{AtomicUsize, Ordering};
+use std::sync::mpsc::{channel, Receiver, RecvTimeoutError};
+use std::sync::{Arc, Mutex};
+use std::time::{Duration, Instant};
+
+use cosmian_cover_crypt::{
+    api::Covercrypt, traits::KemAc, AccessPolicy, AccessStructure, EncryptedHeader,
+    EncryptionHint, MasterPublicKey, MasterSecretKey, QualifiedAttribute, UserSecretKey, XEnc,
+};
+use cosmian_crypto_core::bytes_ser_de::Serializable;
+use serde_json::{json, Value};
+
+use crate::util::{arg_flag, arg_u64, arg_val, hex, unhex, Rng};
+
+// ------------------------------------------------------------ allocator
+
+/// Counting wrapper around the system allocator: live bytes and their peak.
+/// Installed by main.rs as the global allocator.
+pub struct CountingAlloc;
+
+static LIVE: AtomicUsize = AtomicUsize::new(0);
+static PEAK: AtomicUsize = AtomicUsize::new(0);
+
+#[inline]
+fn grow(n: usize) {
+    let now = LIVE.fetch_add(n, Ordering::Relaxed).wrapping_add(n);
+    PEAK.fetch_max(now, Ordering::Relaxed);
+}
+
+unsafe impl GlobalAlloc for CountingAlloc {
+    unsafe fn alloc(&self, l: Layout) -> *mut u8 {
+        let p = System.alloc(l);
+        if !p.is_null() {
+            grow(l.size());
+        }
+        p
+    }
+    unsafe fn alloc_zeroed(&self, l: Layout) -> *mut u8 {
+        let p = System.alloc_zeroed(l);
+        if !p.is_null() {
+            grow(l.size());
+        }
+        p
+    }
+    unsafe fn dealloc(&self, p: *mut u8, l: Layout) {
+        System.dealloc(p, l);
+        LIVE.fetch_sub(l.size(), Ordering::Relaxed);
+    }
+    unsafe fn realloc(&self, p: *mut u8, l: Layout, new: usize) -> *mut u8 {
+        let q = System.realloc(p, l, new);
+        if !q.is_null() {
+            if new >= l.size() {
+                grow(new - l.size());
+            } else {
+                LIVE.fetch_sub(l.size() - new, Ordering::Relaxed);
+            }
+        }
+        q
+    }
+}
+
+/// Starts a measurement: returns the baseline.
+fn alloc_mark() -> usize {
+    let live = LIVE.load(Ordering::Relaxed);
+    PEAK.store(live, Ordering::Relaxed);
+    live
+}
+
+/// Peak of the live bytes above the baseline since `alloc_mark`.
+fn alloc_peak(base: usize) -> usize {
+    PEAK.load(Ordering::Relaxed).saturating_sub(base)
+}
+
+fn allocator_installed() -> bool {
+    let base = alloc_mark();
+    let v: Vec<u8> = Vec::with_capacity(1 << 20);
+    std::hint::black_box(&v);
+    let p = alloc_peak(base);
+    drop(v);
+    p >= 1 << 20
+}
+
+// ------------------------------------------------------------ LEB128
+
+fn leb(mut v: u64) -> Vec<u8> {
+    let mut out = Vec::new();
+    loop {
+        let b = (v & 0x7f) as u8;
+        v >>= 7;
+        if v == 0 {
+            out.push(b);
+            return out;
+        }
+        out.push(b | 0x80);
+    }
+}
+
+fn read_leb(b: &[u8], pos: usize) -> Result<(u64, usize), String> {
+    let mut v: u64 = 0;
+    let mut shift = 0u32;
+    let mut i = pos;
+    loop {
+        let byte = *b.get(i).ok_or_else(|| format!("LEB128 runs past the end at {pos}"))?;
+        i += 1;
+        if shift >= 64 || (shift == 63 && byte & 0x7e != 0) {
+            return Err(format!("LEB128 overflow at {pos}"));
+        }
+        v |= u64::from(byte & 0x7f) << shift;
+        if byte & 0x80 == 0 {
+            return Ok((v, i - pos));
+        }
+        shift += 7;
+    }
+}
+
+// ------------------------------------------------------------ layout cutter
+
+/// A count or length field found in a concrete byte string.
+#[derive(Clone, Debug)]
+struct Field {
+    path: String,
+    /// offset and width of the LEB128 integer
+    off: usize,
+    width: usize,
+    value: u64,
+    /// rep: extents of the elements; vec: one extent, the data
+    elems: Vec<(usize, usize)>,
+    is_vec: bool,
+}
+
+fn join(p: &str, name: &str) -> String {
+    if name.is_empty() {
+        p.to_string()
+    } else if p.is_empty() {
+        name.to_string()
+    } else {
+        format!("{p}/{name}")
+    }
+}
+
+/// Walks `b` from `pos` following the grammar node `g` (the JSON form of the
+/// field trees of Wire.tla); returns the new position.
+fn walk(g: &Value, prefix: &str, b: &[u8], pos: usize, out: &mut Vec<Field>) -> Result<usize, String> {
+    let name = g["name"].as_str().unwrap_or("");
+    let p = join(prefix, name);
+    let need = |pos: usize, n: usize| -> Result<usize, String> {
+        if pos + n <= b.len() {
+            Ok(pos + n)
+        } else {
+            Err(format!("{p}: {n} bytes needed at {pos}, {} left", b.len() - pos))
+        }
+    };
+    match g["k"].as_str().unwrap_or("") {
+        "bytes" => need(pos, g["n"].as_u64().ok_or("bytes without n")? as usize),
+        "int" => read_leb(b, pos).map(|(_, w)| pos + w),
+        "flag" => {
+            let (v, w) = read_leb(b, pos)?;
+            if v > g["max"].as_u64().unwrap_or(0) {
+                return Err(format!("{p}: flag {v} out of range at {pos}"));
+            }
+            Ok(pos + w)
+        }
+        "vec" => {
+            let (v, w) = read_leb(b, pos)?;
+            let end = need(pos + w, usize::try_from(v).map_err(|e| e.to_string())?)?;
+            out.push(Field { path: format!("{p}#len"), off: pos, width: w, value: v, elems: vec![(pos + w, end)], is_vec: true });
+            Ok(end)
+        }
+        "rep" => {
+            let (v, w) = read_leb(b, pos)?;
+            let idx = out.len();
+            out.push(Field { path: format!("{p}#n"), off: pos, width: w, value: v, elems: vec![], is_vec: false });
+            let mut at = pos + w;
+            let sub = format!("{p}[]");
+            for _ in 0..v {
+                let end = walk(&g["elem"], &sub, b, at, out)?;
+                out[idx].elems.push((at, end));
+                at = end;
+            }
+            Ok(at)
+        }
+        "seq" => {
+            let mut at = pos;
+            for it in g["items"].as_array().ok_or("seq without items")? {
+                at = walk(it, &p, b, at, out)?;
+            }
+            Ok(at)
+        }
+        "alt" => {
+            let (v, w) = read_leb(b, pos)?;
+            let alts = g["alts"].as_array().ok_or("alt without alts")?;
+            let a = alts.get(v as usize).ok_or_else(|| format!("{p}: selector {v} at {pos}"))?;
+            walk(a, &p, b, pos + w, out)
+        }
+        "opt" => {
+            let n = g["n"].as_u64().ok_or("opt without n")? as usize;
+            Ok(if b.len() - pos >= n { pos + n } else { pos })
+        }
+        other => Err(format!("unknown grammar node kind {other:?}")),
+    }
+}
+
+/// Every count/length path of a grammar (the harness' own enumeration, compared
+/// with the fields of the cases generated by TLC).
+fn grammar_paths(g: &Value, prefix: &str, out: &mut Vec<String>) {
+    let p = join(prefix, g["name"].as_str().unwrap_or(""));
+    match g["k"].as_str().unwrap_or("") {
+        "vec" => out.push(format!("{p}#len")),
+        "rep" => {
+            out.push(format!("{p}#n"));
+            grammar_paths(&g["elem"], &format!("{p}[]"), out);
+        }
+        "seq" => g["items"].as_array().into_iter().flatten().for_each(|x| grammar_paths(x, &p, out)),
+        "alt" => g["alts"].as_array().into_iter().flatten().for_each(|x| grammar_paths(x, &p, out)),
+        _ => {}
+    }
+}
+
+/// Raw rewrite: only the integer changes.
+fn rewrite_raw(b: &[u8], f: &Field, v: u64) -> Vec<u8> {
+    let mut out = Vec::with_capacity(b.len() + 10);
+    out.extend_from_slice(&b[..f.off]);
+    out.extend_from_slice(&leb(v));
+    out.extend_from_slice(&b[f.off + f.width..]);
+    out
+}
+
+/// Consistent rewrite: the integer changes and the elements follow (dropped
+/// from the end, or the last one duplicated). None when impossible.
+fn rewrite_resized(b: &[u8], f: &Field, v: u64) -> Option<Vec<u8>> {
+    let n = f.value;
+    if v > n + 1 {
+        return None;
+    }
+    let start = f.off + f.width;
+    let end = f.elems.last().map_or(start, |e| e.1);
+    let mut out = Vec::with_capacity(b.len() + 64);
+    out.extend_from_slice(&b[..f.off]);
+    out.extend_from_slice(&leb(v));
+    if f.is_vec {
+        let keep = v.min(n) as usize;
+        out.extend_from_slice(&b[start..start + keep]);
+        if v == n + 1 {
+            out.push(0x41);
+        }
+    } else if v <= n {
+        let upto = if v == 0 { start } else { f.elems[v as usize - 1].1 };
+        out.extend_from_slice(&b[start..upto]);
+    } else {
+        let last = *f.elems.last()?;
+        out.extend_from_slice(&b[start..end]);
+        out.extend_from_slice(&b[last.0..last.1]);
+    }
+    out.extend_from_slice(&b[end..]);
+    Some(out)
+}
+
+fn boundary(v: &str, n: u64) -> Option<u64> {
+    match v {
+        "0" => Some(0),
+        "1" => Some(1),
+        "n-1" => n.checked_sub(1),
+        "n+1" => n.checked_add(1),
+        "2^32" => Some(1 << 32),
+        "2^63" => Some(1 << 63),
+        "2^64-1" => Some(u64::MAX),
+        _ => None,
+    }
+}
+
+// ------------------------------------------------------------ valid objects
+
+const TYPES: [&str; 6] = ["xenc", "header", "usk", "mpk", "msk", "structure"];
+const OBJECTS: [&str; 2] = ["small", "large"];
+
+fn ap(s: &str) -> AccessPolicy {
+    AccessPolicy::parse(s).expect("policy")
+}
+
+fn ser<T: Serializable>(x: &T) -> Vec<u8>
+where
+    T::Error: std::fmt::Debug,
+{
+    x.serialize().expect("serialize").to_vec()
+}
+
+/// One valid object with what is needed to use its mutants.
+#[derive(Clone, Default)]
+struct Object {
+    bytes: Vec<u8>,
+    /// a user key opening the encapsulation / header (xenc, header)
+    usk: Vec<u8>,
+    /// an encapsulation the user key opens (usk)
+    enc: Vec<u8>,
+    /// a policy to encapsulate for (mpk)
+    policy: String,
+}
+
+fn build_objects() -> Result<HashMap<String, Object>, String> {
+    let e = |x: cosmian_cover_crypt::Error| x.to_string();
+    let mut m = HashMap::new();
+    let mut put = |t: &str, o: &str, obj: Object| {
+        m.insert(format!("{t}/{o}"), obj);
+    };
+    // small: one dimension, two attributes, one user key with one right, classic
+    {
+        let cc = Covercrypt::default();
+        let (mut msk, _) = cc.setup().map_err(e)?;
+        msk.access_structure.add_anarchy("D".into()).map_err(e)?;
+        for a in ["A", "B"] {
+            msk.access_structure
+                .add_attribute(QualifiedAttribute::new("D", a), EncryptionHint::Classic, None)
+                .map_err(e)?;
+        }
+        let mpk = cc.update_msk(&mut msk).map_err(e)?;
+        let usk = cc.generate_user_secret_key(&mut msk, &ap("D::A")).map_err(e)?;
+        let (_, enc) = cc.encaps(&mpk, &ap("D::A")).map_err(e)?;
+        let (_, hdr) = EncryptedHeader::generate(&cc, &mpk, &ap("D::A"), None, None).map_err(e)?;
+        if cc.decaps(&usk, &enc).map_err(e)?.is_none() {
+            return Err("small: the user key does not open the encapsulation".into());
+        }
+        let (u, x) = (ser(&usk), ser(&enc));
+        put("xenc", "small", Object { bytes: x.clone(), usk: u.clone(), ..Default::default() });
+        put("header", "small", Object { bytes: ser(&hdr), usk: u.clone(), ..Default::default() });
+        put("usk", "small", Object { bytes: u, enc: x, ..Default::default() });
+        put("mpk", "small", Object { bytes: ser(&mpk), policy: "D::A".into(), ..Default::default() });
+        put("msk", "small", Object { bytes: ser(&msk), ..Default::default() });
+        put("structure", "small", Object { bytes: ser(&msk.access_structure), ..Default::default() });
+    }
+    // large: the golden structure, two revisions of every right, hybridized
+    // rights, several users, a disabled attribute, a header with metadata
+    {
+        let cc = Covercrypt::default();
+        let (mut msk, _) = cc.setup().map_err(e)?;
+        let st = &mut msk.access_structure;
+        st.add_hierarchy("SEC".into()).map_err(e)?;
+        st.add_attribute(QualifiedAttribute::new("SEC", "LOW"), EncryptionHint::Classic, None).map_err(e)?;
+        st.add_attribute(QualifiedAttribute::new("SEC", "TOP"), EncryptionHint::Hybridized, Some("LOW")).map_err(e)?;
+        st.add_anarchy("DPT".into()).map_err(e)?;
+        for (n, h) in [("RD", false), ("HR", false), ("MKG", true), ("FIN", false)] {
+            st.add_attribute(QualifiedAttribute::new("DPT", n), EncryptionHint::new(h), None).map_err(e)?;
+        }
+        cc.update_msk(&mut msk).map_err(e)?;
+        let pols = ["SEC::TOP && (DPT::FIN || DPT::HR)", "DPT::MKG", "*", "SEC::LOW && DPT::RD"];
+        let mut usks = Vec::new();
+        for p in pols {
+            usks.push(cc.generate_user_secret_key(&mut msk, &ap(p)).map_err(e)?);
+        }
+        cc.rekey(&mut msk, &ap("*")).map_err(e)?;
+        for u in usks.iter_mut().take(3) {
+            cc.refresh_usk(&mut msk, u, true).map_err(e)?;
+        }
+        msk.access_structure
+            .disable_attribute(&QualifiedAttribute::new("DPT", "HR"))
+            .map_err(e)?;
+        let mpk = cc.update_msk(&mut msk).map_err(e)?;
+        let pol = "SEC::TOP && (DPT::FIN || DPT::MKG)";
+        let (_, enc) = cc.encaps(&mpk, &ap(pol)).map_err(e)?;
+        let (_, hdr) =
+            EncryptedHeader::generate(&cc, &mpk, &ap(pol), Some(b"wire metadata"), None).map_err(e)?;
+        if cc.decaps(&usks[0], &enc).map_err(e)?.is_none() {
+            return Err("large: the user key does not open the encapsulation".into());
+        }
+        let (u, x) = (ser(&usks[0]), ser(&enc));
+        put("xenc", "large", Object { bytes: x.clone(), usk: u.clone(), ..Default::default() });
+        put("header", "large", Object { bytes: ser(&hdr), usk: u.clone(), ..Default::default() });
+        put("usk", "large", Object { bytes: u, enc: x, ..Default::default() });
+        put("mpk", "large", Object { bytes: ser(&mpk), policy: pol.into(), ..Default::default() });
+        put("msk", "large", Object { bytes: ser(&msk), ..Default::default() });
+        put("structure", "large", Object { bytes: ser(&msk.access_structure), ..Default::default() });
+    }
+    Ok(m)
+}
+
+// ------------------------------------------------------------ the plan
+
+/// Everything parent and workers derive identically from the context file.
+struct Plan {
+    cases: Vec<Value>,
+    objects: HashMap<String, Object>,
+    layouts: HashMap<String, Vec<Field>>,
+    /// number of concrete mutants of each case, and prefix sums
+    sizes: Vec<usize>,
+    starts: Vec<usize>,
+    total: usize,
+    seed: u64,
+    thorough: bool,
+}
+
+struct Mutant {
+    bytes: Vec<u8>,
+    /// byte offset the mutation applies at, and a printable value
+    off: usize,
+    val: String,
+    /// false when the mutant equals the valid object
+    changed: bool,
+}
+
+const FLIP_QUICK: [u8; 3] = [0x01, 0x80, 0xff];
+
+impl Plan {
+    fn key(c: &Value) -> String {
+        format!("{}/{}", c["type"].as_str().unwrap_or(""), c["object"].as_str().unwrap_or(""))
+    }
+
+    fn n_random(&self) -> usize {
+        if self.thorough {
+            20000
+        } else {
+            2000
+        }
+    }
+
+    fn occurrences<'a>(&'a self, c: &Value) -> Vec<&'a Field> {
+        let path = c["field"].as_str().unwrap_or("");
+        self.layouts[&Self::key(c)].iter().filter(|f| f.path == path).collect()
+    }
+
+    fn size_of(&self, c: &Value) -> usize {
+        let len = self.objects[&Self::key(c)].bytes.len();
+        match c["mutation"].as_str().unwrap_or("") {
+            "truncate" => len + 1,
+            "flip" => len * if self.thorough { 255 } else { FLIP_QUICK.len() },
+            "random" => self.n_random(),
+            "count" | "resize" => self.occurrences(c).len(),
+            _ => 0,
+        }
+    }
+
+    fn new(ctx: &Value) -> Result<Plan, String> {
+        let cases_path = ctx["cases"].as_str().ok_or("context without cases")?;
+        let text = std::fs::read_to_string(cases_path).map_err(|e| format!("{cases_path}: {e}"))?;
+        let mut grammars: HashMap<String, Value> = HashMap::new();
+        let mut cases = Vec::new();
+        for line in text.lines() {
+            let v: Value = serde_json::from_str(line).map_err(|e| e.to_string())?;
+            if let Some(g) = v.get("grammar") {
+                grammars.insert(g["type"].as_str().unwrap_or("").to_string(), g.clone());
+            } else if v.get("mutation").is_some() {
+                cases.push(v);
+            }
+        }
+        let mut objects = HashMap::new();
+        for (k, o) in ctx["objects"].as_object().ok_or("context without objects")? {
+            let h = |f: &str| unhex(o[f].as_str().unwrap_or(""));
+            objects.insert(
+                k.clone(),
+                Object { bytes: h("bytes"), usk: h("usk"), enc: h("enc"), policy: o["policy"].as_str().unwrap_or("").into() },
+            );
+        }
+        let mut layouts = HashMap::new();
+        for t in TYPES {
+            let g = grammars.get(t).ok_or_else(|| format!("no grammar for {t}"))?;
+            for o in OBJECTS {
+                let k = format!("{t}/{o}");
+                let b = &objects.get(&k).ok_or_else(|| format!("no object {k}"))?.bytes;
+                let mut fields = Vec::new();
+                let end = walk(&g["grammar"], "", b, 0, &mut fields).map_err(|e| format!("layout of {k}: {e}"))?;
+                if end != b.len() {
+                    return Err(format!("layout of {k}: walked {end} of {} bytes", b.len()));
+                }
+                layouts.insert(k, fields);
+            }
+        }
+        let mut plan = Plan {
+            cases,
+            objects,
+            layouts,
+            sizes: vec![],
+            starts: vec![],
+            total: 0,
+            seed: ctx["seed"].as_u64().unwrap_or(1),
+            thorough: ctx["thorough"].as_bool().unwrap_or(false),
+        };
+        for i in 0..plan.cases.len() {
+            let n = plan.size_of(&plan.cases[i]);
+            plan.starts.push(plan.total);
+            plan.sizes.push(n);
+            plan.total += n;
+        }
+        Ok(plan)
+    }
+
+    /// Checks of the cutter against the grammar and the cases; any
+    /// disagreement means that the grammar of Wire.tla is not the format.
+    fn verify(&self, grammars: &HashMap<String, Value>) -> Result<(), String> {
+        for t in TYPES {
+            let mut gp = Vec::new();
+            grammar_paths(&grammars[t]["grammar"], "", &mut gp);
+            let gp: HashSet<String> = gp.into_iter().collect();
+            let cp: HashSet<String> = self
+                .cases
+                .iter()
+                .filter(|c| c["type"] == t && c.get("field").is_some())
+                .map(|c| c["field"].as_str().unwrap_or("").to_string())
+                .collect();
+            if gp != cp {
+                return Err(format!("{t}: fields of the cases {cp:?} differ from the fields of the grammar {gp:?}"));
+            }
+            for o in OBJECTS {
+                let k = format!("{t}/{o}");
+                let b = &self.objects[&k].bytes;
+                for f in &self.layouts[&k] {
+                    if !gp.contains(&f.path) {
+                        return Err(format!("{k}: field {} is not in the grammar", f.path));
+                    }
+                    if rewrite_raw(b, f, f.value) != *b {
+                        return Err(format!("{k}: re-encoding {} at {} changes the bytes", f.path, f.off));
+                    }
+                    if rewrite_resized(b, f, f.value).as_deref() != Some(&b[..]) {
+                        return Err(format!("{k}: resizing {} at {} to its own value changes the bytes", f.path, f.off));
+                    }
+                }
+            }
+        }
+        Ok(())
+    }
+
+    fn locate(&self, id: usize) -> (usize, usize) {
+        let i = match self.starts.binary_search(&id) {
+            Ok(mut i) => {
+                // skip empty cases sharing the same start
+                while self.sizes[i] == 0 {
+                    i += 1;
+                }
+                i
+            }
+            Err(i) => i - 1,
+        };
+        (i, id - self.starts[i])
+    }
+
+    fn materialize(&self, ci: usize, j: usize) -> Mutant {
+        let c = &self.cases[ci];
+        let base = &self.objects[&Self::key(c)].bytes;
+        match c["mutation"].as_str().unwrap_or("") {
+            "truncate" => Mutant { bytes: base[..j].to_vec(), off: j, val: format!("len={j}"), changed: j != base.len() },
+            "flip" => {
+                let per = if self.thorough { 255 } else { FLIP_QUICK.len() };
+                let (pos, m) = (j / per, j % per);
+                let mask = if self.thorough { (m + 1) as u8 } else { FLIP_QUICK[m] };
+                let mut b = base.clone();
+                b[pos] ^= mask;
+                Mutant { bytes: b, off: pos, val: format!("^{mask:02x}"), changed: true }
+            }
+            "random" => {
+                let mut rng = Rng::new(self.seed ^ ((ci as u64) << 32) ^ (j as u64).wrapping_mul(0x9E37_79B9));
+                let mut b = base.clone();
+                let flavour = j % 4;
+                let at = rng.below(base.len().max(1));
+                let span = 1 + rng.below(16);
+                match flavour {
+                    0 => {
+                        let n = rng.below(2 * base.len().min(256) + 1);
+                        b = rng.bytes(n);
+                    }
+                    1 => {
+                        for x in b.iter_mut().skip(at).take(span) {
+                            *x = (rng.next() & 0xff) as u8;
+                        }
+                    }
+                    2 => {
+                        let end = (at + span).min(b.len());
+                        b.drain(at..end);
+                    }
+                    _ => {
+                        let ins = rng.bytes(span);
+                        b.splice(at..at, ins);
+                    }
+                }
+                let val = ["uniform", "overwrite", "delete", "insert"][flavour].to_string();
+                Mutant { bytes: b, off: if flavour == 0 { 0 } else { at }, val, changed: true }
+            }
+            m @ ("count" | "resize") => {
+                let f = self.occurrences(c)[j];
+                let vs = c["value"].as_str().unwrap_or("");
+                let same = || Mutant { bytes: base.clone(), off: f.off, val: format!("{vs} (not applicable, n={})", f.value), changed: false };
+                match boundary(vs, f.value) {
+                    None => same(),
+                    Some(v) => {
+                        let bytes = if m == "count" { Some(rewrite_raw(base, f, v)) } else { rewrite_resized(base, f, v) };
+                        match bytes {
+                            None => same(),
+                            Some(bytes) => {
+                                let changed = bytes != *base;
+                                Mutant { bytes, off: f.off, val: format!("{vs}={v} (n={})", f.value), changed }
+                            }
+                        }
+                    }
+                }
+            }
+            _ => Mutant { bytes: base.clone(), off: 0, val: String::new(), changed: false },
+        }
+    }
+}
+
+fn read_grammars(cases_path: &str) -> Result<HashMap<String, Value>, String> {
+    let text = std::fs::read_to_string(cases_path).map_err(|e| format!("{cases_path}: {e}"))?;
+    let mut grammars = HashMap::new();
+    for line in text.lines() {
+        let v: Value = serde_json::from_str(line).map_err(|e| e.to_string())?;
+        if let Some(g) = v.get("grammar") {
+            grammars.insert(g["type"].as_str().unwrap_or("").to_string(), g.clone());
+        }
+    }
+    Ok(grammars)
+}
+
+// ------------------------------------------------------------ worker
+
+struct Outcome {
+    parse: &'static str,
+    used: &'static str,
+    us: u128,
+    peak: usize,
+    use_peak: usize,
+}
+
+/// Deserializes `bytes` as a T, then uses the value. `mark` is called
+/// between the two phases (progress line for the parent).
+fn exec<T: Serializable>(bytes: &[u8], mark: &mut dyn FnMut(), used: impl FnOnce(&T) -> &'static str) -> Outcome {
+    let t0 = Instant::now();
+    let base = alloc_mark();
+    let r = catch_unwind(AssertUnwindSafe(|| T::deserialize(bytes)));
+    let peak = alloc_peak(base);
+    match r {
+        Err(_) => Outcome { parse: "panic", used: "na", us: t0.elapsed().as_micros(), peak, use_peak: 0 },
+        Ok(Err(err)) => {
+            drop(err);
+            Outcome { parse: "error", used: "na", us: t0.elapsed().as_micros(), peak, use_peak: 0 }
+        }
+        Ok(Ok(v)) => {
+            mark();
+            let base = alloc_mark();
+            let u = catch_unwind(AssertUnwindSafe(|| used(&v))).unwrap_or("panic");
+            let use_peak = alloc_peak(base);
+            // dropping a malformed value must not panic either
+            let d = catch_unwind(AssertUnwindSafe(move || drop(v)));
+            let u = if d.is_err() { "panic" } else { u };
+            Outcome { parse: "value", used: u, us: t0.elapsed().as_micros(), peak, use_peak }
+        }
+    }
+}
+
+struct UseCtx {
+    cc: Covercrypt,
+    usk: HashMap<String, UserSecretKey>,
+    enc: HashMap<String, XEnc>,
+    policy: HashMap<String, AccessPolicy>,
+}
+
+fn opt3<T, E>(r: Result<Option<T>, E>) -> &'static str {
+    match r {
+        Ok(Some(_)) => "ok",
+        Ok(None) => "none",
+        Err(_) => "error",
+    }
+}
+
+fn run_one(ctx: &UseCtx, key: &str, ty: &str, bytes: &[u8], mark: &mut dyn FnMut()) -> Outcome {
+    let cc = &ctx.cc;
+    match ty {
+        "xenc" => exec::<XEnc>(bytes, mark, |x| {
+            let r = opt3(cc.decaps(&ctx.usk[key], x));
+            std::hint::black_box(x.tracing_level());
+            std::hint::black_box(x.count());
+            r
+        }),
+        "header" => exec::<EncryptedHeader>(bytes, mark, |h| {
+            let r = opt3(h.decrypt(cc, &ctx.usk[key], None));
+            std::hint::black_box(h.encapsulation.tracing_level());
+            std::hint::black_box(h.encapsulation.count());
+            r
+        }),
+        "usk" => exec::<UserSecretKey>(bytes, mark, |u| {
+            let r = opt3(cc.decaps(u, &ctx.enc[key]));
+            std::hint::black_box(u.tracing_level());
+            r
+        }),
+        "mpk" => exec::<MasterPublicKey>(bytes, mark, |m| {
+            let r = if cc.encaps(m, &ctx.policy[key]).is_ok() { "ok" } else { "error" };
+            std::hint::black_box(m.tracing_level());
+            r
+        }),
+        "msk" => exec::<MasterSecretKey>(bytes, mark, |m| match m.mpk() {
+            Ok(p) => {
+                std::hint::black_box(p.tracing_level());
+                "ok"
+            }
+            Err(_) => "error",
+        }),
+        _ => exec::<AccessStructure>(bytes, mark, |_| "ok"),
+    }
+}
+
+fn worker(ctx_path: &str) -> Result<(), String> {
+    let ctx: Value = serde_json::from_str(&std::fs::read_to_string(ctx_path).map_err(|e| e.to_string())?)
+        .map_err(|e| e.to_string())?;
+    let plan = Plan::new(&ctx)?;
+    let mut uc = UseCtx { cc: Covercrypt::default(), usk: HashMap::new(), enc: HashMap::new(), policy: HashMap::new() };
+    for (k, o) in &plan.objects {
+        if !o.usk.is_empty() {
+            uc.usk.insert(k.clone(), UserSecretKey::deserialize(&o.usk).map_err(|e| e.to_string())?);
+        }
+        if !o.enc.is_empty() {
+            uc.enc.insert(k.clone(), XEnc::deserialize(&o.enc).map_err(|e| e.to_string())?);
+        }
+        if !o.policy.is_empty() {
+            uc.policy.insert(k.clone(), ap(&o.policy));
+        }
+    }
+    let stdout = std::io::stdout();
+    let mut out = stdout.lock();
+    let say = |out: &mut std::io::StdoutLock, s: String| {
+        let _ = out.write_all(s.as_bytes());
+        let _ = out.flush();
+    };
+    say(&mut out, "READY\n".into());
+    let stdin = std::io::stdin();
+    let mut line = String::new();
+    loop {
+        line.clear();
+        if stdin.lock().read_line(&mut line).map_err(|e| e.to_string())? == 0 {
+            return Ok(());
+        }
+        let mut it = line.split_whitespace();
+        let a: usize = it.next().and_then(|x| x.parse().ok()).unwrap_or(0);
+        let b: usize = it.next().and_then(|x| x.parse().ok()).unwrap_or(0);
+        let skip: HashSet<usize> = it.next().map(|s| s.split(',').filter_map(|x| x.parse().ok()).collect()).unwrap_or_default();
+        for id in a..b.min(plan.total) {
+            let (ci, j) = plan.locate(id);
+            if skip.contains(&ci) {
+                continue;
+            }
+            let c = &plan.cases[ci];
+            let m = plan.materialize(ci, j);
+            say(&mut out, format!("S {id}\n"));
+            let mut mark = || {
+                let so = std::io::stdout();
+                let mut o = so.lock();
+                let _ = o.write_all(format!("U {id}\n").as_bytes());
+                let _ = o.flush();
+            };
+            // the lock on stdout is reentrant: `mark` may lock it again
+            let mut o = run_one(&uc, &Plan::key(c), c["type"].as_str().unwrap_or(""), &m.bytes, &mut mark);
+            // wall-clock time on a loaded machine is noisy: a slow mutant is run a second
+            // time and the faster run counts (a genuinely slow input is slow twice)
+            if o.us > SLOW_RETRY_US {
+                let o2 = run_one(&uc, &Plan::key(c), c["type"].as_str().unwrap_or(""), &m.bytes, &mut mark);
+                if o2.parse == o.parse && o2.used == o.used && o2.us < o.us {
+                    o.us = o2.us;
+                }
+            }
+            say(
+                &mut out,
+                format!("R {id} {} {} {} {} {} {} {}\n", m.bytes.len(), o.parse, o.used, o.us, o.peak, o.use_peak, u8::from(m.changed)),
+            );
+        }
+        say(&mut out, "D\n".into());
+    }
+}
+
+// ------------------------------------------------------------ parent
+
+#[derive(Default, Clone)]
+struct Agg {
+    n: u64,
+    n_changed: u64,
+    max_us: u128,
+    max_len: usize,
+    worst_excess: i128,
+    worst_peak: usize,
+    worst_len: usize,
+    max_use_peak: usize,
+    used: BTreeMap<String, u64>,
+    examples: Vec<Value>,
+    note: String,
+}
+
+struct Proc {
+    child: Child,
+    stdin: ChildStdin,
+    rx: Receiver<String>,
+}
+
+const VLIMIT_KB: u64 = 1_048_576;
+const STALL: Duration = Duration::from_secs(5);
+
+fn spawn_worker(ctx_path: &str) -> Result<Proc, String> {
+    let exe = std::env::current_exe().map_err(|e| e.to_string())?;
+    let mut child = Command::new("sh")
+        .arg("-c")
+        .arg(format!("ulimit -v {VLIMIT_KB}; exec \"$0\" wire --worker \"$1\""))
+        .arg(exe)
+        .arg(ctx_path)
+        .stdin(Stdio::piped())
+        .stdout(Stdio::piped())
+        .stderr(Stdio::inherit())
+        .spawn()
+        .map_err(|e| format!("cannot spawn a worker: {e}"))?;
+    let stdin = child.stdin.take().ok_or("worker stdin")?;
+    let stdout = child.stdout.take().ok_or("worker stdout")?;
+    let (tx, rx) = channel();
+    std::thread::spawn(move || {
+        for l in BufReader::new(stdout).lines() {
+            match l {
+                Ok(l) => {
+                    if tx.send(l).is_err() {
+                        break;
+                    }
+                }
+                Err(_) => break,
+            }
+        }
+    });
+    match rx.recv_timeout(Duration::from_secs(60)) {
+        Ok(l) if l == "READY" => Ok(Proc { child, stdin, rx }),
+        other => {
+            let _ = child.kill();
+            let st = child.wait().map(|s| s.to_string()).unwrap_or_default();
+            Err(format!("worker did not start ({other:?}, {st})"))
+        }
+    }
+}
+
+fn around(b: &[u8], off: usize) -> String {
+    let a = off.saturating_sub(24).min(b.len());
+    let e = (a + 64).min(b.len());
+    hex(&b[a..e])
+}
+
+struct Shared {
+    plan: Plan,
+    next: AtomicUsize,
+    /// cases whose remaining mutants are skipped after repeated hangs
+    skip: Mutex<HashSet<usize>>,
+    hangs: Mutex<HashMap<usize, usize>>,
+    total_hangs: AtomicUsize,
+    ctx_path: String,
+}
+
+const CHUNK: usize = 128;
+const SLOW_RETRY_US: u128 = 200_000;
+const HANGS_PER_CASE: usize = 2;
+const HANGS_TOTAL: usize = 36;
+
+fn record(sh: &Shared, aggs: &mut HashMap<(usize, String), Agg>, id: usize, class: &str, len: usize, us: u128, peak: usize,
+          use_peak: usize, used: &str, changed: bool, note: &str) {
+    let (ci, j) = sh.plan.locate(id);
+    let c = &sh.plan.cases[ci];
+    let k = c["K"].as_u64().unwrap_or(0) as i128;
+    let cc = c["C"].as_u64().unwrap_or(0) as i128;
+    let over = peak as i128 > k * len as i128 + cc;
+    let class = if class == "value" || class == "error" {
+        if over {
+            "overalloc"
+        } else {
+            class
+        }
+    } else {
+        class
+    };
+    let a = aggs.entry((ci, class.to_string())).or_default();
+    a.n += 1;
+    a.n_changed += u64::from(changed);
+    a.max_us = a.max_us.max(us);
+    a.max_len = a.max_len.max(len);
+    a.max_use_peak = a.max_use_peak.max(use_peak);
+    let excess = peak as i128 - k * len as i128;
+    if a.n == 1 || excess > a.worst_excess {
+        a.worst_excess = excess;
+        a.worst_peak = peak;
+        a.worst_len = len;
+    }
+    if used != "na" {
+        *a.used.entry(used.to_string()).or_default() += 1;
+    }
+    if !note.is_empty() && a.note.is_empty() {
+        a.note = note.to_string();
+    }
+    let bad = !(class == "value" || class == "error");
+    if a.examples.len() < 3 {
+        let m = sh.plan.materialize(ci, j);
+        let mut ex = json!({"j": j, "off": m.off, "val": m.val, "len": m.bytes.len(), "hex": around(&m.bytes, m.off),
+                            "peak": peak.min(i32::MAX as usize), "ms": (us / 1000) as u64});
+        if bad && m.bytes.len() <= 8192 {
+            ex["bytes"] = json!(hex(&m.bytes));
+        }
+        a.examples.push(ex);
+    }
+}
+
+fn slot(sh: Arc<Shared>) -> Result<HashMap<(usize, String), Agg>, String> {
+    let mut aggs: HashMap<(usize, String), Agg> = HashMap::new();
+    let mut proc = spawn_worker(&sh.ctx_path)?;
+    loop {
+        let a = sh.next.fetch_add(CHUNK, Ordering::SeqCst);
+        if a >= sh.plan.total {
+            break;
+        }
+        let b = (a + CHUNK).min(sh.plan.total);
+        let mut from = a;
+        'chunk: while from < b {
+            if sh.total_hangs.load(Ordering::SeqCst) >= HANGS_TOTAL {
+                // the run is lost anyway: account the rest as skipped
+                for id in from..b {
+                    let (ci, _) = sh.plan.locate(id);
+                    aggs.entry((ci, "skipped".into())).or_default().n += 1;
+                }
+                break 'chunk;
+            }
+            let skip: Vec<usize> = sh.skip.lock().unwrap().iter().copied().collect();
+            let skipset: HashSet<usize> = skip.iter().copied().collect();
+            let cmd = format!("{from} {b} {}\n", skip.iter().map(|x| x.to_string()).collect::<Vec<_>>().join(","));
+            if proc.stdin.write_all(cmd.as_bytes()).and_then(|_| proc.stdin.flush()).is_err() {
+                let _ = proc.child.kill();
+                let _ = proc.child.wait();
+                proc = spawn_worker(&sh.ctx_path)?;
+                continue;
+            }
+            let count_skipped = |aggs: &mut HashMap<(usize, String), Agg>, lo: usize, hi: usize| {
+                for id in lo..hi {
+                    let (ci, _) = sh.plan.locate(id);
+                    if skipset.contains(&ci) {
+                        aggs.entry((ci, "skipped".into())).or_default().n += 1;
+                    }
+                }
+            };
+            let mut inflight: Option<(usize, bool)> = None;
+            loop {
+                match proc.rx.recv_timeout(STALL) {
+                    Ok(l) => {
+                        let mut it = l.split(' ');
+                        match it.next() {
+                            Some("S") => inflight = it.next().and_then(|x| x.parse().ok()).map(|id| (id, false)),
+                            Some("U") => {
+                                if let Some(x) = inflight.as_mut() {
+                                    x.1 = true;
+                                }
+                            }
+                            Some("R") => {
+                                let f: Vec<&str> = it.collect();
+                                if f.len() < 8 {
+                                    return Err(format!("malformed worker line {l:?}"));
+                                }
+                                let id: usize = f[0].parse().map_err(|_| "worker id")?;
+                                let len: usize = f[1].parse().unwrap_or(0);
+                                let (parse, used) = (f[2], f[3]);
+                                let us: u128 = f[4].parse().unwrap_or(0);
+                                let peak: usize = f[5].parse().unwrap_or(0);
+                                let use_peak: usize = f[6].parse().unwrap_or(0);
+                                let changed = f[7] == "1";
+                                let class = if parse == "panic" {
+                                    "panic"
+                                } else if used == "panic" {
+                                    "use-panic"
+                                } else {
+                                    parse
+                                };
+                                record(&sh, &mut aggs, id, class, len, us, peak, use_peak, used, changed, "");
+                                inflight = None;
+                            }
+                            Some("D") => {
+                                count_skipped(&mut aggs, from, b);
+                                from = b;
+                                break;
+                            }
+                            _ => {}
+                        }
+                    }
+                    Err(e) => {
+                        let hang = matches!(e, RecvTimeoutError::Timeout);
+                        if hang {
+                            let _ = proc.child.kill();
+                        }
+                        let status = proc.child.wait().map(|s| s.to_string()).unwrap_or_default();
+                        let Some((id, in_use)) = inflight else {
+                            return Err(format!("worker lost between two mutants ({status})"));
+                        };
+                        let class = match (hang, in_use) {
+                            (true, false) => "hang",
+                            (true, true) => "use-hang",
+                            (false, false) => "abort",
+                            (false, true) => "use-abort",
+                        };
+                        let (ci, j) = sh.plan.locate(id);
+                        let m = sh.plan.materialize(ci, j);
+                        let note = if hang { format!("no progress for {} s, killed", STALL.as_secs()) } else { status };
+                        record(&sh, &mut aggs, id, class, m.bytes.len(), if hang { STALL.as_micros() } else { 0 }, 0, 0,
+                               "na", m.changed, &note);
+                        if hang {
+                            sh.total_hangs.fetch_add(1, Ordering::SeqCst);
+                            let mut h = sh.hangs.lock().unwrap();
+                            let n = h.entry(ci).or_default();
+                            *n += 1;
+                            if *n >= HANGS_PER_CASE {
+                                sh.skip.lock().unwrap().insert(ci);
+                            }
+                        }
+                        proc = spawn_worker(&sh.ctx_path)?;
+                        count_skipped(&mut aggs, from, id + 1);
+                        from = id + 1;
+                        continue 'chunk;
+                    }
+                }
+            }
+        }
+    }
+    drop(proc.stdin);
+    let _ = proc.child.wait();
+    Ok(aggs)
+}
+
+pub fn run(args: &[String]) -> Result<(), String> {
+    if !allocator_installed() {
+        return Err("the counting allocator is not installed (main.rs: #[global_allocator] static A: sat::wire::CountingAlloc)".into());
+    }
+    if let Some(ctx) = arg_val(args, "--worker") {
+        return worker(&ctx);
+    }
+    let cases = arg_val(args, "--cases").ok_or("--cases")?;
+    let out = arg_val(args, "--out").ok_or("--out")?;
+    let seed = arg_u64(args, "--seed", 1);
+    let thorough = arg_flag(args, "--thorough");
+    let nworkers = arg_u64(args, "--workers", 12).clamp(1, 64) as usize;
+    let t0 = Instant::now();
+
+    let objects = build_objects()?;
+    let mut objs = serde_json::Map::new();
+    for (k, o) in &objects {
+        objs.insert(k.clone(), json!({"bytes": hex(&o.bytes), "usk": hex(&o.usk), "enc": hex(&o.enc), "policy": o.policy}));
+    }
+    let ctx = json!({"cases": cases, "seed": seed, "thorough": thorough, "objects": objs});
+    let ctx_path = format!("{out}.ctx.json");
+    std::fs::write(&ctx_path, ctx.to_string()).map_err(|e| e.to_string())?;
+
+    // the cutter against the grammar: a disagreement is a tool error (exit 2)
+    let plan = Plan::new(&ctx).map_err(|e| format!("layout cutter disagrees with the grammar of Wire.tla: {e}"))?;
+    let grammars = read_grammars(&cases)?;
+    plan.verify(&grammars).map_err(|e| format!("layout cutter disagrees with the grammar of Wire.tla: {e}"))?;
+
+    let mut w = BufWriter::new(std::fs::File::create(&out).map_err(|e| e.to_string())?);
+    for t in TYPES {
+        for o in OBJECTS {
+            let k = format!("{t}/{o}");
+            let mut paths: Vec<String> = plan.layouts[&k].iter().map(|f| f.path.clone()).collect();
+            paths.sort();
+            paths.dedup();
+            let rec = json!({"kind": "layout", "type": t, "object": o, "len": plan.objects[&k].bytes.len(), "walked": true,
+                             "nfields": plan.layouts[&k].len(), "fields": paths});
+            writeln!(w, "{rec}").map_err(|e| e.to_string())?;
+        }
+    }
+    eprintln!("[wire] {} abstract cases, {} concrete mutants, {} workers", plan.cases.len(), plan.total, nworkers);
+
+    let sh = Arc::new(Shared {
+        plan,
+        next: AtomicUsize::new(0),
+        skip: Mutex::new(HashSet::new()),
+        hangs: Mutex::new(HashMap::new()),
+        total_hangs: AtomicUsize::new(0),
+        ctx_path,
+    });
+    let handles: Vec<_> = (0..nworkers)
+        .map(|_| {
+            let sh = sh.clone();
+            std::thread::spawn(move || slot(sh))
+        })
+        .collect();
+    let mut aggs: BTreeMap<(usize, String), Agg> = BTreeMap::new();
+    for h in handles {
+        let part = h.join().map_err(|_| "a worker slot panicked".to_string())??;
+        for (k, a) in part {
+            let t = aggs.entry(k).or_default();
+            if t.n == 0 || a.worst_excess > t.worst_excess {
+                t.worst_excess = a.worst_excess;
+                t.worst_peak = a.worst_peak;
+                t.worst_len = a.worst_len;
+            }
+            t.n += a.n;
+            t.n_changed += a.n_changed;
+            t.max_us = t.max_us.max(a.max_us);
+            t.max_len = t.max_len.max(a.max_len);
+            t.max_use_peak = t.max_use_peak.max(a.max_use_peak);
+            for (u, n) in a.used {
+                *t.used.entry(u).or_default() += n;
+            }
+            for e in a.examples {
+                if t.examples.len() < 3 {
+                    t.examples.push(e);
+                }
+            }
+            if t.note.is_empty() {
+                t.note = a.note;
+            }
+        }
+    }
+    let mut executed = 0u64;
+    for ((ci, class), a) in &aggs {
+        let c = &sh.plan.cases[*ci];
+        let mut rec = json!({"kind": "case", "case": ci, "type": c["type"], "object": c["object"], "mutation": c["mutation"]});
+        for f in ["field", "value"] {
+            if let Some(v) = c.get(f) {
+                rec[f] = v.clone();
+            }
+        }
+        rec["class"] = json!(class);
+        rec["n"] = json!(a.n);
+        rec["n_changed"] = json!(a.n_changed);
+        rec["max_ms"] = json!((a.max_us / 1000) as u64);
+        rec["max_len"] = json!(a.max_len);
+        rec["worst_peak"] = json!(a.worst_peak.min(i32::MAX as usize));
+        rec["worst_len"] = json!(a.worst_len);
+        rec["max_use_peak"] = json!(a.max_use_peak.min(i32::MAX as usize));
+        let u = |k: &str| a.used.get(k).copied().unwrap_or(0);
+        rec["used"] = json!({"ok": u("ok"), "none": u("none"), "error": u("error")});
+        rec["nused"] = json!(a.used.values().sum::<u64>());
+        if !a.note.is_empty() {
+            rec["note"] = json!(a.note);
+        }
+        if !a.examples.is_empty() {
+            rec["examples"] = json!(a.examples);
+        }
+        writeln!(w, "{rec}").map_err(|e| e.to_string())?;
+        if class != "skipped" {
+            executed += a.n;
+        }
+    }
+    w.flush().map_err(|e| e.to_string())?;
+    eprintln!("[wire] executed {executed} mutants in {:.1}s, {} records", t0.elapsed().as_secs_f64(), aggs.len());
+    Ok(())
 }
